@@ -190,6 +190,28 @@ fn t_tvfs_blte(data: &[u8]) -> Outcome {
 fn t_patch_archive(data: &[u8]) -> Outcome {
     casc::<cascette_formats::patch_archive::PatchArchive>("patch-archive", data)
 }
+/// `decompress_patch_data`: the decoder for patch payloads. The compression spec travels in the
+/// patch archive as text; here the input is `<spec text> NUL <payload>`.
+fn t_patch_data(data: &[u8]) -> Outcome {
+    use cascette_formats::patch_archive::{decompress_patch_data, get_compression_at_offset, parse_compression_spec};
+    let cut = data.iter().position(|&b| b == 0).unwrap_or(data.len());
+    let info = String::from_utf8_lossy(&data[..cut]);
+    let payload = data.get(cut + 1..).unwrap_or(&[]);
+    let spec = match parse_compression_spec(&info) {
+        Ok(s) => s,
+        Err(e) => return err_outcome(e),
+    };
+    for off in [0u64, 1, payload.len() as u64, u64::from(u32::MAX), u64::MAX] {
+        let _ = get_compression_at_offset(&spec, off);
+    }
+    match decompress_patch_data(payload, &spec) {
+        Ok(_) => Outcome::ok(),
+        Err(e) => {
+            let (c, _) = err_class(&e.to_string());
+            Outcome::err(c, true)
+        }
+    }
+}
 fn t_patch_index(data: &[u8]) -> Outcome {
     casc::<cascette_formats::patch_index::PatchIndex>("patch-index", data)
 }
@@ -296,6 +318,22 @@ fn t_mime(data: &[u8]) -> Outcome {
     let r = parse_v1_mime_response(data);
     let _ = parse_v1_mime_to_bpsv(data);
     match r {
+        Ok(_) => {
+            let mut o = Outcome::ok();
+            o.class = format!("ok:is={}", is as u8);
+            o
+        }
+        Err(e) => {
+            let (c, g) = err_class(&e.to_string());
+            Outcome::err(format!("{c};is={}", is as u8), g || is)
+        }
+    }
+}
+/// the second V1 MIME reader of the crate (`v1_mime`: mail-parser based, MD5/SHA-256 epilogue, signature and certificate parts)
+fn t_mime_v1(data: &[u8]) -> Outcome {
+    use cascette_protocol::v1_mime::{is_v1_mime_response, parse_v1_mime_response};
+    let is = is_v1_mime_response(data);
+    match parse_v1_mime_response(data, None) {
         Ok(_) => {
             let mut o = Outcome::ok();
             o.class = format!("ok:is={}", is as u8);
@@ -503,7 +541,9 @@ pub static TARGETS: &[Target] = &[
     Target { name: "keyring-config", run: t_keyring_config, decompresses: false },
     Target { name: "bpsv", run: t_bpsv, decompresses: false },
     Target { name: "espec", run: t_espec, decompresses: false },
+    Target { name: "patch-data", run: t_patch_data, decompresses: true },
     Target { name: "mime", run: t_mime, decompresses: false },
+    Target { name: "mime-v1-module", run: t_mime_v1, decompresses: false },
     Target { name: "build-info", run: t_build_info, decompresses: false },
     Target { name: "idx", run: t_idx, decompresses: false },
     Target { name: "idx-names", run: t_idx_names, decompresses: false },
